@@ -10,9 +10,10 @@
 (*   - everything before the returned index k is strictly smaller than the *)
 (*     element at k, everything after it is not smaller.                   *)
 (* SelectProof.tla proves with TLAPS that in every reachable state the     *)
-(* wanted position stays inside the window (so neither the range assertion *)
-(* nor the empty-range panic of `gen_range(0..0)' can fire: pc is never    *)
-(* "panic"), the window is sandwiched between what lies left and right of  *)
+(* wanted position - if in range - stays inside the window (so neither the *)
+(* range assertion nor the empty-range panic of `gen_range(0..0)' can      *)
+(* fire), an out-of-range position is rejected at the first level (C16),   *)
+(* the window is sandwiched between what lies left and right of            *)
 (* it, and at return the element at the wanted position is >= everything   *)
 (* before it and <= everything after it (arrangement clause of C02).       *)
 (* The multiset clause and `ret = SortedAt' are checked by TLC (bounded).  *)
@@ -28,7 +29,8 @@ params == <<Len0, Want0>>
 
 Assumptions ==
     /\ Len0 \in Nat
-    /\ Want0 \in Nat /\ Want0 < Len0
+    /\ Want0 \in Nat                       \* any position: in range (Want0 < Len0) or not
+InRange == Want0 < Len0
 
 Idx == 0 .. (Len0 - 1)
 InWin(x) == lo <= x /\ x < hi
@@ -89,10 +91,15 @@ TypeOK ==
     /\ arr \in [Idx -> Int]
     /\ lo \in Int /\ hi \in Int /\ want \in Int /\ ret \in Int
     /\ 0 <= lo /\ lo <= hi /\ hi <= Len0
-    /\ pc \in {"run", "done"}                                   \* never "panic"
+    /\ pc \in {"run", "done", "panic"}
+
+(* C16 for every length: an in-range position never panics; an out-of-range one is rejected by the assertion at the *)
+(* first level - nothing is returned and nothing is rearranged before that                                          *)
+NoPanicInRange == InRange => pc # "panic"
+OorInv == ~InRange => (pc = "panic" \/ (pc = "run" /\ lo = 0 /\ hi = Len0 /\ want = Want0))
 
 (* the wanted position stays the same absolute position, inside the window *)
-WantInv == pc = "run" => (lo + want = Want0 /\ 0 <= want /\ want < hi - lo)
+WantInv == (InRange /\ pc = "run") => (lo + want = Want0 /\ 0 <= want /\ want < hi - lo)
 
 (* everything left of the window is <= everything inside, which is <= everything right of it *)
 SandwichInv ==
@@ -107,5 +114,5 @@ Post ==
         /\ \A x \in Idx : x < Want0 => arr[x] <= ret
         /\ \A x \in Idx : x > Want0 => ret <= arr[x]
 
-Inv == TypeOK /\ WantInv /\ SandwichInv /\ Post
+Inv == TypeOK /\ NoPanicInRange /\ OorInv /\ WantInv /\ SandwichInv /\ Post
 =============================================================================
